@@ -75,6 +75,30 @@ pub trait MetadataClient: Send + Sync {
     async fn complete_compaction(&self, source_chunks: &[String], target_chunk: &str)
         -> Result<()>;
 
+    /// Atomically replace `source_chunks` by the merged chunk `target`, which is not registered
+    /// yet. The target enters the catalog one level above the highest source level. Fails, changing
+    /// nothing, if a source chunk is no longer in the catalog (it was compacted or deleted by
+    /// someone else in the meantime).
+    ///
+    /// The default implementation registers and then swaps, which is not atomic; backends with a
+    /// single catalog object override it.
+    async fn swap_compacted_chunk(
+        &self,
+        source_chunks: &[String],
+        target: &ChunkMetadata,
+    ) -> Result<()> {
+        for path in source_chunks {
+            if self.get_chunk(path).await?.is_none() {
+                return Err(crate::Error::Metadata(format!(
+                    "Compaction source chunk no longer in catalog: {}",
+                    path
+                )));
+            }
+        }
+        self.register_chunk(&target.path, target).await?;
+        self.complete_compaction(source_chunks, &target.path).await
+    }
+
     /// Update compaction job status
     async fn update_compaction_status(&self, job_id: &str, status: CompactionStatus) -> Result<()>;
 
